@@ -3,12 +3,16 @@ package checks
 // C11 — Shared subscriptions: each message goes to exactly one live member per group.
 
 import (
+	"context"
 	"fmt"
+	"sync"
+	"sync/atomic"
 	"testing"
 	"time"
 
 	"github.com/DrmagicE/gmqtt"
 	submem "github.com/DrmagicE/gmqtt/persistence/subscription/mem"
+	"github.com/DrmagicE/gmqtt/server"
 	"pgregory.net/rapid"
 
 	"verif/ev"
@@ -20,7 +24,7 @@ import (
 // ---- store level: the C02 history machinery with a high share of shared subscriptions ----
 
 func TestC11Store(t *testing.T) {
-	ev.SetRule("C11", "store: rapid histories of Subscribe/Unsubscribe/UnsubscribeAll where ~1/4 of the subscriptions are shared (groups g1,g2; one client in several groups on one filter; several members per group) against map[client]map[fullFilter]; shared and non-shared lookups, by-client iteration and counters compared after every op, all 84 topics after the last op. broker: 2-4 v5 clients join/leave groups (SUBSCRIBE, UNSUBSCRIBE, DISCONNECT with expiry 0, clean take-over, TerminateSession, elapse of a 1 s session expiry interval set at DISCONNECT - waited out in real time plus a 400 ms margin, well before the broker's 20 s sweeper runs) or go offline with a persistent session; every subscription carries a unique subscription identifier so each received copy is attributable; after all publishes offline members are drained; per message and (group,filter) with >=1 member exactly one copy over the group's members, at min QoS, never to a session that had left; non-shared copies per the C01 model; no retained replay on a shared SUBSCRIBE. Non-trivial: a leave followed by a publish matching the leaver's former group while another member remains; distinct by scenario digest.")
+	ev.SetRule("C11", "store: rapid histories of Subscribe/Unsubscribe/UnsubscribeAll where ~1/4 of the subscriptions are shared (groups g1,g2; one client in several groups on one filter; several members per group) against map[client]map[fullFilter]; shared and non-shared lookups, by-client iteration and counters compared after every op, all 84 topics after the last op. broker: 2-4 v5 clients join/leave groups (SUBSCRIBE, UNSUBSCRIBE, DISCONNECT with expiry 0, clean take-over, TerminateSession, elapse of a 1 s session expiry interval set at DISCONNECT - waited out in real time plus a 400 ms margin, well before the broker's 20 s sweeper runs) or go offline with a persistent session; every subscription carries a unique subscription identifier so each received copy is attributable; after all publishes offline members are drained; per message and (group,filter) with >=1 member exactly one copy over the group's members, at min QoS, never to a session that had left; non-shared copies per the C01 model; no retained replay on a shared SUBSCRIBE; 'race' steps end a member's session (clean take-over, TerminateSession, DISCONNECT with expiry 0; optionally with 2-20 ms OnConnected/OnSessionTerminated hooks) WHILE 3-4 connections pipeline QoS1 publishes aimed at its groups: every subscription identifier and every connection carries the session number of its client id, and a copy routed through a subscription of session #n may only arrive on a connection of session #n (at most one copy per group, exactly one when the leaver was not a member). Non-trivial: a leave followed by a publish matching the leaver's former group while another member remains; distinct by scenario digest.")
 	ev.RunN(t, "C11", 3, func(t *rapid.T) c02Scen {
 		s := c02Scen{Backend: "mem", Shared: true}
 		s.Ops = genSubOps(t, true, 40)
@@ -45,6 +49,8 @@ type c11Op struct {
 	How    string `json:"how,omitempty"` // drop: disconnect0 | takeover_clean | terminate | terminate_offline | expire
 	Topic  string `json:"t,omitempty"`
 	By     int    `json:"by,omitempty"` // pub: 0 = Publisher API, k>0 = client k-1 publishes on its own connection (if online)
+	// race: client c leaves (how: takeover_clean | terminate | disconnect0) WHILE client by-1 publishes K messages
+	K int `json:"k,omitempty"`
 }
 
 type c11Scen struct {
@@ -52,6 +58,8 @@ type c11Scen struct {
 	Clients int     `json:"clients"`
 	Ops     []c11Op `json:"ops"`
 	Redis   bool    `json:"redis,omitempty"` // persistence on the redis backend (subscription store wrapper, queues)
+	// SlowHookUs: while a race op runs, the application's OnConnected / OnSessionTerminated hooks take this long
+	SlowHookUs int `json:"slow_hook_us,omitempty"`
 }
 
 var c11Filters = []string{"t", "t/+", "#", "+/x", "t/#", "$x/#"}
@@ -65,6 +73,8 @@ func genC11(t *rapid.T) c11Scen {
 	if rapid.IntRange(0, 2).Draw(t, "allow_expire") == 0 {
 		expireLeft = 2
 	}
+	s.SlowHookUs = rapid.SampledFrom([]int{0, 0, 2000, 20000}).Draw(t, "slow_hook_us")
+	joined := map[int][]string{} // generator's rough idea of the filters a client is a group member on
 	n := rapid.IntRange(4, 24).Draw(t, "nops")
 	for i := 0; i < n; i++ {
 		cl := rapid.IntRange(0, s.Clients-1).Draw(t, "client")
@@ -72,6 +82,7 @@ func genC11(t *rapid.T) c11Scen {
 		case k <= 6:
 			s.Ops = append(s.Ops, c11Op{Op: "join", Client: cl, Group: rapid.SampledFrom([]string{"g1", "g1", "g2"}).Draw(t, "group"),
 				Filter: rapid.SampledFrom(c11Filters).Draw(t, "filter"), QoS: byte(rapid.IntRange(0, 2).Draw(t, "qos"))})
+			joined[cl] = append(joined[cl], s.Ops[len(s.Ops)-1].Filter)
 		case k <= 8:
 			s.Ops = append(s.Ops, c11Op{Op: "leave", Client: cl, Group: rapid.SampledFrom([]string{"g1", "g1", "g2"}).Draw(t, "group"),
 				Filter: rapid.SampledFrom(c11Filters).Draw(t, "filter")})
@@ -87,6 +98,22 @@ func genC11(t *rapid.T) c11Scen {
 				}
 			}
 			s.Ops = append(s.Ops, c11Op{Op: "drop", Client: cl, How: how})
+		case k == 12 && s.Clients >= 2 && rapid.IntRange(0, 2).Draw(t, "race") > 0:
+			by := (cl + 1 + rapid.IntRange(0, s.Clients-2).Draw(t, "raceby")) % s.Clients
+			topic := rapid.SampledFrom(c11Topics).Draw(t, "topic")
+			// aimed: a topic that matches a filter the leaver joined a group on earlier (if any)
+			if fs := joined[cl]; len(fs) > 0 && rapid.IntRange(0, 3).Draw(t, "aim") > 0 {
+				f := rapid.SampledFrom(fs).Draw(t, "aimfilter")
+				for _, tp := range c11Topics {
+					if topicref.Match(tp, f) {
+						topic = tp
+						break
+					}
+				}
+			}
+			s.Ops = append(s.Ops, c11Op{Op: "race", Client: cl, How: rapid.SampledFrom([]string{"takeover_clean", "terminate", "disconnect0"}).Draw(t, "racehow"),
+				By: by + 1, K: rapid.IntRange(3, 8).Draw(t, "racek"), Topic: topic})
+			joined[cl] = nil
 		case k == 12:
 			s.Ops = append(s.Ops, c11Op{Op: "offline", Client: cl})
 		default:
@@ -137,11 +164,27 @@ func runC11(s c11Scen, c *ev.Case) *ev.Violation {
 		return bv
 	}
 	defer cleanupBackend()
-	b, err := fixture.Start(fixture.Opts{Config: cfg})
+	var raceOn atomic.Bool
+	slow := func() {
+		if s.SlowHookUs > 0 && raceOn.Load() {
+			time.Sleep(time.Duration(s.SlowHookUs) * time.Microsecond)
+		}
+	}
+	hooks := &server.Hooks{
+		OnConnected:         func(ctx context.Context, cl server.Client) { slow() },
+		OnSessionTerminated: func(ctx context.Context, clientID string, reason server.SessionTerminatedReason) { slow() },
+	}
+	b, err := fixture.Start(fixture.Opts{Config: cfg, Hooks: hooks})
 	if err != nil {
 		return harnessErr("start broker: %v", err)
 	}
 	defer b.Stop()
+	var racePubs []*fixture.Client // extra publisher connections for race ops, no subscriptions
+	defer func() {
+		for _, rp := range racePubs {
+			rp.Kill()
+		}
+	}()
 
 	// a retained message on "t" and "t/x": must never be replayed by a shared SUBSCRIBE
 	pubc, ack, err := b.Connect(fixture.ConnectOpts{ID: "publisher", V: mw.V5, CleanStart: true, AutoAck: true})
@@ -155,6 +198,9 @@ func runC11(s c11Scen, c *ev.Case) *ev.Violation {
 		}
 	}
 
+	sessEpoch := make([]int, s.Clients)           // number of sessions the client id has had so far
+	connEpoch := map[*fixture.Client]int{}        // session epoch a connection belongs to
+	subEpoch := map[uint32]int{}                  // session epoch a subscription identifier was granted in
 	conns := make([][]*fixture.Client, s.Clients) // every connection a client id ever had
 	cur := make([]*fixture.Client, s.Clients)
 	online := make([]bool, s.Clients)
@@ -163,7 +209,11 @@ func runC11(s c11Scen, c *ev.Case) *ev.Violation {
 		if err != nil || ack.ReasonCode != 0 {
 			return ev.Violf("C11.connect", "client %d connect: %v %v", i, ack, err)
 		}
+		if !ack.SessionPresent && len(conns[i]) > 0 {
+			sessEpoch[i]++ // a new session for this client id
+		}
 		conns[i] = append(conns[i], cl)
+		connEpoch[cl] = sessEpoch[i]
 		cur[i], online[i] = cl, true
 		if !ack.SessionPresent {
 			if err := subscribeSentinel(cl); err != nil {
@@ -206,6 +256,7 @@ func runC11(s c11Scen, c *ev.Case) *ev.Violation {
 		offline map[int]bool              // members that were offline when it was published
 		maybe   map[string]bool           // gf whose copy may have died with an offline member's session
 		nsMaybe map[uint32]bool
+		leaver  int // race: 1 + the client whose session ended while this message was being published, else 0
 	}
 	var pubs []pubRec
 	// markLost: client i's session ends while it is offline; whatever was queued for it is gone
@@ -248,6 +299,7 @@ func runC11(s c11Scen, c *ev.Case) *ev.Violation {
 			if err != nil || code != op.QoS {
 				return ev.Violf("C11.suback", "SUBSCRIBE %q: code %#x err %v", sp.full(), code, err)
 			}
+			subEpoch[id] = connEpoch[cl]
 			if op.Op == "join" {
 				gf := op.Group + "|" + op.Filter
 				if shared[gf] == nil {
@@ -387,6 +439,146 @@ func runC11(s c11Scen, c *ev.Case) *ev.Violation {
 			}
 			online[op.Client] = false
 			c.Label("offline_persistent")
+		case "race":
+			// client X's session ends (clean take-over / TerminateSession / DISCONNECT with expiry 0, each followed by a
+			// fresh CONNECT) WHILE several connections publish matching QoS1 messages. Whatever the interleaving, a copy
+			// routed through one of X's old subscriptions may only ever reach a connection of X's old session.
+			x, y := op.Client, op.By-1
+			if !online[x] || y < 0 || y >= s.Clients || y == x {
+				c.Count("skipped_ops", 1)
+				continue
+			}
+			if v := quiesce(b, cl); v != nil { // nothing older is in flight towards X when its session ends
+				return v
+			}
+			for len(racePubs) < 3 {
+				rp, ack, err := b.Connect(fixture.ConnectOpts{ID: fmt.Sprintf("racepub%d", len(racePubs)), V: mw.V5, CleanStart: true, AutoAck: true})
+				if err != nil || ack.ReasonCode != 0 {
+					return harnessErr("race publisher connect: %v %v", ack, err)
+				}
+				racePubs = append(racePubs, rp)
+			}
+			publishers := append([]*fixture.Client(nil), racePubs...)
+			if online[y] {
+				publishers = append(publishers, cur[y])
+			}
+			xMember := false
+			for gf, m := range shared {
+				_, f := splitGF(gf)
+				if _, ok := m[x]; ok && topicref.Match(op.Topic, f) {
+					xMember = true
+					if len(m) > 1 {
+						c.NonTrivial()
+						c.Label("race_leave_vs_publish_with_remaining_member")
+					}
+				}
+			}
+			if xMember {
+				c.Label("race_leaver_is_member")
+			}
+			type sent struct {
+				cl  *fixture.Client
+				pid uint16
+			}
+			var sends [][]sent
+			for pi, pc := range publishers {
+				var row []sent
+				for k := 0; k < op.K; k++ {
+					uid := fmt.Sprintf("m%03d", len(pubs)+1)
+					rec := pubRec{uid: uid, topic: op.Topic, qos: 1, members: map[string]map[int]uint32{}, ns: map[uint32]bool{},
+						offline: map[int]bool{}, maybe: map[string]bool{}, nsMaybe: map[uint32]bool{}, leaver: x + 1}
+					for ci := range online {
+						if !online[ci] {
+							rec.offline[ci] = true
+						}
+					}
+					for gf, m := range shared {
+						_, f := splitGF(gf)
+						if len(m) > 0 && topicref.Match(op.Topic, f) {
+							cp := map[int]uint32{}
+							for k, v := range m {
+								cp[k] = v
+							}
+							rec.members[gf] = cp
+						}
+					}
+					for ci := range nonshared {
+						for f, id := range nonshared[ci] {
+							if topicref.Match(op.Topic, f) {
+								rec.ns[id] = true
+							}
+						}
+					}
+					pubs = append(pubs, rec)
+					pid++
+					row = append(row, sent{pc, pid})
+					_ = pi
+				}
+				sends = append(sends, row)
+			}
+			base := len(pubs) - len(publishers)*op.K
+			raceOn.Store(true)
+			var wg sync.WaitGroup
+			errs := make(chan error, len(publishers))
+			for pi := range publishers {
+				wg.Add(1)
+				go func(pi int) {
+					defer wg.Done()
+					for k, sd := range sends[pi] {
+						uid := pubs[base+pi*op.K+k].uid
+						if err := sd.cl.Send(&mw.Packet{Type: mw.PUBLISH, Topic: op.Topic, QoS: 1, PacketID: sd.pid, Payload: []byte(uid)}); err != nil {
+							errs <- fmt.Errorf("publisher %s: send: %w", sd.cl.ID, err)
+							return
+						}
+					}
+					for _, sd := range sends[pi] {
+						if _, err := sd.cl.WaitAck(mw.PUBACK, sd.pid, fixture.DefaultWait); err != nil {
+							errs <- fmt.Errorf("publisher %s: PUBACK %d: %w", sd.cl.ID, sd.pid, err)
+							return
+						}
+					}
+				}(pi)
+			}
+			var lv *ev.Violation
+			switch op.How {
+			case "takeover_clean":
+				lv = connect(x, true)
+			case "terminate":
+				b.Srv.ClientService().TerminateSession(clientName(x))
+				if !waitSessionGone(b, clientName(x)) {
+					lv = ev.Violf("C11.terminate", "session of client %d still present 5 s after TerminateSession", x)
+				} else {
+					lv = connect(x, true)
+				}
+			case "disconnect0":
+				// the client keeps reading until the broker closes the connection: closing first, while the broker is still
+				// writing to it, may end the connection with a write error before the DISCONNECT packet is handled
+				_ = cl.Send(&mw.Packet{Type: mw.DISCONNECT, Props: &mw.Props{SessionExpiry: u32p(0)}})
+				cl.WaitClosed(fixture.DefaultWait)
+				cl.Kill()
+				if !waitSessionGone(b, clientName(x)) {
+					lv = ev.Violf("C11.disconnect-expiry0", "session of client %d still present 5 s after DISCONNECT with Session Expiry Interval 0", x)
+				} else {
+					lv = connect(x, true)
+				}
+			}
+			wg.Wait()
+			raceOn.Store(false)
+			if lv != nil {
+				return lv
+			}
+			select {
+			case err := <-errs:
+				return ev.Violf("C11.publish-ack", "race: %v", err)
+			default:
+			}
+			for gf, m := range shared {
+				if _, ok := m[x]; ok {
+					leftRecently[gf] = true
+				}
+			}
+			leaveAll(x)
+			c.Label("race_" + op.How)
 		case "pub":
 			uid := fmt.Sprintf("m%03d", len(pubs)+1)
 			rec := pubRec{uid: uid, topic: op.Topic, qos: op.QoS, members: map[string]map[int]uint32{}, ns: map[uint32]bool{},
@@ -490,6 +682,12 @@ func runC11(s c11Scen, c *ev.Case) *ev.Violation {
 					return ev.Violf("C11.no-subid", "client %d received %s without a subscription identifier", ci, p)
 				}
 				sub := subByID[ids[0]]
+				for _, id := range ids {
+					if subEpoch[id] != connEpoch[cl] {
+						return ev.Violf("C11.delivered-to-leaver", "message %s (topic %q) was delivered to client %d on a connection of its session #%d through subscription id %d, which belonged to its session #%d: that session (and its membership) had ended", rec.uid, rec.topic, ci, connEpoch[cl], id, subEpoch[id]).
+							With("gf", subByID[id].gf)
+					}
+				}
 				if sub.gf != "" {
 					if len(ids) != 1 {
 						return ev.Violf("C11.subid", "shared copy carries %d subscription identifiers", len(ids))
@@ -519,14 +717,16 @@ func runC11(s c11Scen, c *ev.Case) *ev.Violation {
 	}
 	for _, rec := range pubs {
 		for gf, mem := range rec.members {
-			if n := sharedCopies[rec.uid+"|"+gf]; n != 1 && !(n == 0 && rec.maybe[gf]) {
+			_, leaverIn := mem[rec.leaver-1]
+			// race: the copy may have been given to the leaver just before its session ended, and died with it
+			if n := sharedCopies[rec.uid+"|"+gf]; n != 1 && !(n == 0 && (rec.maybe[gf] || (rec.leaver > 0 && leaverIn))) {
 				return ev.Violf("C11.exactly-one", "message %s (topic %q, qos %d): %d copies delivered to group|filter %q with live members %v (expected exactly 1)", rec.uid, rec.topic, rec.qos, n, gf, mem).
 					With("copies", n, "gf", gf)
 			}
 			c.Count("group_deliveries", 1)
 		}
 		for id := range rec.ns {
-			if n := nsCopies[fmt.Sprintf("%s|%d", rec.uid, id)]; n != 1 && !(n == 0 && rec.nsMaybe[id]) {
+			if n := nsCopies[fmt.Sprintf("%s|%d", rec.uid, id)]; n != 1 && !(n == 0 && (rec.nsMaybe[id] || (rec.leaver > 0 && subByID[id].client == rec.leaver-1))) {
 				return ev.Violf("C11.nonshared", "message %s: %d copies through non-shared subscription id %d (expected 1)", rec.uid, n, id).With("mode", s.Mode)
 			}
 		}
